@@ -1129,3 +1129,100 @@ def run_missing_property(P, rep, rule="R-MISSINGPROP"):
                 rep.viol(rule, site, P.where(c), "an object that lacks the property is KEPT by `%s` (the predicate is true when get() is None)" % site0)
             else:
                 rep.viol(rule, site + " undecided", P.where(c), "could not evaluate the predicate for a missing property (unrecognised Option idiom): not decided")
+
+
+# ---------------------------------------------------------------------------------------
+# R-TABLE.parseformats: the accepted date syntaxes are the reviewed ones, component by component
+
+def date_format_signatures(P):
+    """file -> sorted list of signatures; a signature is the ordered list of time::format_description components and
+    modifiers (variant names, small integer/bool fields) a `format_description!` constant is built from."""
+    out = {}
+    for fn in sorted(P.fns.values(), key=lambda f: f.id):
+        if fn.kind != "const" or fn.crate != "liquid_core" or "/model/scalar/" not in fn.file or not fn.id.rsplit("::", 1)[1].startswith("DESCRIPTION"):
+            continue
+        sig = []
+        for b in fn.blocks:
+            t = b["t"]
+            for st in b["s"]:
+                if st[0] != "a":
+                    continue
+                rv = st[2]
+                if rv["k"] == "agg" and rv.get("ak") == "adt" and rv["id"].startswith("time::format_description::"):
+                    short = rv["id"].rsplit("::", 1)[1]
+                    if short == "BorrowedFormatItem":
+                        sig.append("|" + rv.get("vname", "?"))
+                    else:
+                        sig.append("%s.%s" % (short, rv.get("vname")))
+                elif rv["k"] == "use" and st[1][1] and rv["o"][0] == "k" and isinstance(rv["o"][1], dict) and "val" in rv["o"][1]:
+                    sig.append("f%d=%s" % (st[1][1][0][1], rv["o"][1]["val"]))
+            if t["k"] == "call" and t.get("f") and t["f"]["name"].startswith("time::format_description::modifier::"):
+                sig.append("<" + t["f"]["name"].split("modifier::", 1)[1].split("::")[0] + ">")
+        out.setdefault(fn.file, []).append(" ".join(sig))
+    return {k: sorted(v) for k, v in out.items()}
+
+
+def run_parse_formats(P, rep, rule="R-TABLE.parseformats"):
+    import core as _core
+    want = _core.load_json("ledger/date_formats.json", None)
+    have = date_format_signatures(P)
+    if want is None:
+        rep.anchor_missing(rule, "ledger/date_formats.json")
+        return
+    if not have:
+        rep.anchor_missing(rule, "format_description! constants in model/scalar")
+        return
+    for f in sorted(set(want) | set(have)):
+        w, h = list(want.get(f, [])), list(have.get(f, []))
+        missing = []
+        extra = list(h)
+        for s_ in w:
+            if s_ in extra:
+                extra.remove(s_)
+            else:
+                missing.append(s_)
+        site = f.rsplit("/", 1)[-1] + " formats"
+        if missing or extra:
+            def brief(s_):
+                return " ".join(x for x in s_.split() if "." in x or x.startswith("<"))[:200]
+            rep.viol(rule, site, f, "the set of accepted/printed date syntaxes changed: reviewed but gone: %s; new and unreviewed: %s" % (
+                [brief(x) for x in missing][:2], [brief(x) for x in extra][:2]))
+        else:
+            rep.ok(rule, site, f, "%d format descriptions, each component and modifier as reviewed" % len(h))
+
+
+# ---------------------------------------------------------------------------------------
+# R-CASEFLAG: the `^` / `#` flags reach every textual output class of strftime
+
+def run_case_flag(P, rep, rule="R-CASEFLAG"):
+    """In strftime's final `match format`, the arms for alphabetical fields and for composite (pre-formatted) fields each
+    apply the case flag (an upper-casing call on the freshly written text)."""
+    fn = P.fn_by_key("liquid_core::model::scalar::datetime::strftime::strftime")
+    adt = None
+    for k, a in P.adts.items():
+        if k.endswith("strftime::Formats"):
+            adt = a
+    if adt is None:
+        rep.anchor_missing(rule, "enum Formats")
+        return
+    names = [v["name"] for v in adt["variants"]]
+    sw = discr_switches(P, fn, lambda pl: P.local_ty(fn, pl[0]).endswith("strftime::Formats") and not pl[1])
+    if not sw:
+        rep.anchor_missing(rule, "match on Formats")
+        return
+    regs = [arm_region(P, fn, v, sw, start=min(sw)) for v in range(len(names))]
+    common = set(regs[0])
+    for r in regs[1:]:
+        common &= r
+    for want in ("Alphabetical", "Formatted"):
+        if want not in names:
+            rep.anchor_missing(rule, "Formats::" + want)
+            continue
+        reg = regs[names.index(want)] - common
+        ups = [b for b in reg if fn.blocks[b]["t"]["k"] == "call" and fn.blocks[b]["t"].get("f")
+               and fn.blocks[b]["t"]["f"]["id"].rsplit("::", 1)[1] in ("make_ascii_uppercase", "to_uppercase", "to_ascii_uppercase")]
+        site = "strftime Formats::" + want
+        if ups:
+            rep.ok(rule, site, P.where(fn, fn.blocks[ups[0]]["t"].get("line")), "the arm upper-cases its output under the case flag")
+        else:
+            rep.viol(rule, site, P.where(fn), "the %s arm never applies the case flag: `^`/`#` are ignored for this class of directives" % want)
